@@ -116,4 +116,31 @@ theorem reachable_converted_equals_original (hr : ReachableWF s.reg) {q : Qty} {
     s.qtyEq q ⟨a / b * q.amount, v⟩ = .ok true :=
   converted_equals_original h (reachable_scales_nonzero hr h).1 (reachable_scales_nonzero hr h).2
 
+/-! ### units without scale -/
+
+/-- a unit declared WITHOUT a definition has no scale: within its own type it
+converts to nothing (no converter registered) — UnitConversionError, whether
+or not the type has a reference unit (since fix c2c5a04 not an AssertionError) -/
+theorem convert_scale_less_unit_rejected {q : Qty} {v : Nat}
+    (hc : s.reg.unitCls q.unit = s.reg.unitCls v) (hne : q.unit ≠ v)
+    (hnone : (s.reg.unit q.unit).equiv = none)
+    (hmoney : (s.reg.cls (s.reg.unitCls q.unit)).isMoney = false)
+    (hconv : s.clsConverters (s.reg.unitCls q.unit) = []) :
+    s.convert d q v = .error .UnitConversionError := by
+  have he : s.equivAmount q v = .ok none := by
+    unfold QState.equivAmount RegState.unitEq RegState.unitFactor
+    have h1 : (s.reg.unitCls q.unit != s.reg.unitCls v) = false := by simp [hc]
+    have h2 : (q.unit == v) = false := by simpa using hne
+    cases hr : (s.reg.cls (s.reg.unitCls q.unit)).refUnit.isNone <;>
+      simp only [h1, hnone, hr, Bool.false_eq_true, ↓reduceIte, h2, hmoney, hconv,
+        List.reverse_nil] <;> rfl
+  unfold QState.convert
+  rw [he]
+
+/-- ... and to a unit of ANOTHER type it is IncompatibleUnitsError all the same -/
+theorem convert_scale_less_unit_other_type {q : Qty} {v : Nat}
+    (hc : s.reg.unitCls q.unit ≠ s.reg.unitCls v) :
+    s.convert d q v = .error .IncompatibleUnitsError :=
+  convert_other_type_rejected hc
+
 end QM.Props.C01
